@@ -621,6 +621,94 @@ func c18CollectGeometries(v any, nums *[]ref.JNum) {
 	}
 }
 
+// c18EveryLength: a line string and a polygon ring of exactly idx coordinates,
+// idx = 0, 1, 2, ..., in XY, XYZ and XYZM, ordinates k + 0.0625 j (so that the
+// rounding to 0..3 digits is known by hand), written as WKT with and without a
+// digit limit: the text is read by the independent reader, has exactly idx
+// coordinates, and every number is the ordinate rounded half-even/half-up to the
+// limit (both are accepted at exact ties).
+func c18EveryLength(c *fw.Ctx, idx int) {
+	n := idx
+	for li, layout := range []geom.Layout{geom.XY, geom.XYZ, geom.XYZM} {
+		stride := layout.Stride()
+		flat := make([]float64, n*stride)
+		for i := range flat {
+			flat[i] = float64(i%977) + 0.0625*float64(i%16) // multiples of 1/16: exact in binary and in 4 decimals
+		}
+		d := []int{-1, 0, 1, 2, 3, 4}[(idx+li)%6]
+		var ts []geom.T
+		ts = append(ts, geom.NewLineStringFlat(layout, flat))
+		if n >= 4 {
+			ring := append([]float64{}, flat...)
+			copy(ring[(n-1)*stride:], ring[:stride])
+			ts = append(ts, geom.NewPolygonFlat(layout, ring, []int{len(ring)}))
+		}
+		for _, t := range ts {
+			c.SetInput(map[string]any{"geometry": fmt.Sprintf("%T %s of exactly %d coordinates, ordinate i = (i mod 977) + (i mod 16)/16", t, layout, n), "digits": d})
+			var text string
+			var err error
+			if c.Guard("panic", func() {
+				if d < 0 {
+					text, err = wkt.Marshal(t)
+				} else {
+					text, err = wkt.Marshal(t, wkt.EncodeOptionWithMaxDecimalDigits(d))
+				}
+			}) {
+				return
+			}
+			c.Eval(1)
+			if err != nil {
+				c.Fail("marshal-error", "wkt.Marshal of a %T of %d coordinates (digits %d) failed: %v", t, n, d, err)
+				return
+			}
+			rg, rerr := ref.ReadWKT(text)
+			if rerr != nil {
+				c.Fail("invalid-output", "%T of %d coordinates, digits %d: the independent reader rejects the text: %v (text ends %q)", t, n, d, rerr, text[max(0, len(text)-40):])
+				return
+			}
+			var got [][]float64
+			if rg.Kind == model.Polygon {
+				if len(rg.C2) != 1 {
+					c.Fail("structure-changed", "polygon of one ring reads back with %d rings", len(rg.C2))
+					return
+				}
+				got = rg.C2[0]
+			} else {
+				got = rg.C1
+			}
+			want := t.FlatCoords()
+			if len(got) != n {
+				c.Fail("structure-changed", "%T of %d coordinates, digits %d: the text holds %d", t, n, d, len(got))
+				return
+			}
+			for i, co := range got {
+				if len(co) != stride {
+					c.Fail("structure-changed", "%T of %d coordinates: coordinate %d is written with %d numbers", t, n, i, len(co))
+					return
+				}
+				for k, v := range co {
+					w := want[i*stride+k]
+					if d >= 0 && d < 4 {
+						sc := math.Pow(10, float64(d))
+						lo, hi := math.Floor(w*sc)/sc, math.Ceil(w*sc)/sc
+						if v != lo && v != hi || math.Abs(v-w) > 0.5/sc+1e-12 {
+							c.Fail("rounding-error", "%T of %d coordinates, digits %d: ordinate %v is written as %v", t, n, d, w, v)
+							return
+						}
+					} else if v != w {
+						c.Fail("rounding-error", "%T of %d coordinates, digits %d: ordinate %v is written as %v", t, n, d, w, v)
+						return
+					}
+				}
+			}
+		}
+	}
+	c.Count("lengths_written_with_and_without_a_digit_limit")
+	if idx%1000 == 0 {
+		c.Distinct(fmt.Sprintf("every-length/%d", idx))
+	}
+}
+
 func init() {
 	fw.Register(&fw.Monitor{
 		ID:     "C18",
@@ -630,6 +718,7 @@ func init() {
 		Classes: []fw.Class{
 			{Name: "wkt", Quick: 96000, Thorough: 16 * 200000, Run: c18WKT},
 			{Name: "geojson", Quick: 96000, Thorough: 16 * 200000, Run: c18GeoJSON},
+			{Name: "every-length", Quick: 4501, Thorough: 20001, Chunk: 40, Run: c18EveryLength, Exhaustive: "WKT of a line string and a polygon ring of every number of coordinates from 0 to the class count, three layouts, digit limits none and 0..4"},
 		},
 		Require: []string{"numbers_checked", "numbers_d00", "numbers_d15", "exact_ties", "rounded_to_zero", "rounded_to_minus_zero", "rounded_across_power_of_ten", "wkt_outputs", "geojson_outputs", "bbox_outputs"},
 	})
